@@ -9,6 +9,7 @@ RULE = ('A: deterministic dequeue orders (one item at a time, each waiting for i
         '0,1,2,3,9,10,11,255,256,1023,4096,65535,65536, MaxBufferedPayloadSz, +1 (thorough: 4 MiB, 20 random orders), keep-alive acks with ids '
         '0, 2^31, 2^32-1 between them, CloseConnection with and without payload last; the raw stream the peer recorded is split by hand and compared '
         'frame by frame (version, type, id, length, FNV-32 of payload, stray bytes) with the write-side fold. '
+        "A': local Close() while a 40 KB - 4 MiB payload is in flight on a healthy connection (the peer has taken the header and 0 - 70000 payload bytes and pauses during Close): the raw stream is judged by the monitor. "
         'B: concurrent stress over net.Pipe and loopback TCP: 1,2,4,8,16 (thorough 32,64) senders x 5-12 messages, SendMessage and SendNoWait, '
         'contexts cancelled after 0-5 ms, one request in seven never answered, 6-16 (thorough 40) keep-alives injected at random moments (ids 0,1,2^31,2^32-1, '
         'a duplicate, random), graceful Shutdown racing with late senders; the RAW byte stream is judged by the Lean monitor checkWrite '
@@ -49,16 +50,19 @@ def judge(res, reqs, obs, seed, first_stress=0):
                 res.violation('seq:' + r.split(' ', 1)[1], 'dequeue order [%s]: code wrote {%s}; the write-side model (which has the property) writes {%s}' % (r.split(' ', 1)[1], o, e),
                               'history', prop, case=[r], expected=[e], observed=[o])
         else:
-            tag = 'stress:%d' % k
-            k += 1
-            res.distinct.add(tag)
             parts = r.split(' ')
+            if parts[-1].startswith('#'):
+                tag = parts.pop()[1:]
+            else:
+                tag = 'stress:%d' % k
+                k += 1
+            res.distinct.add(tag)
             res.count('stress-bytes', (len(parts[1]) - 1) // 2)
             res.count('stress-requests', len(parts) - 4)
             if e != o:
                 res.count('mismatch')
                 short = ' '.join([parts[0], parts[1][:200] + ('…' if len(parts[1]) > 200 else '')] + parts[2:])
-                res.violation(tag + ':' + e.replace(' ', '-'), 'stress run %s (seed %s): the Lean monitor judges the raw stream the peer recorded: %s' % (tag, seed, e),
+                res.violation(tag + ':' + e.replace(' ', '-'), 'run %s (seed %s): the Lean monitor judges the raw stream the peer recorded: %s' % (tag, seed, e),
                               'history', True, case=[tag], expected=['accept'], observed=[e], monitor_input=[short[:4000]])
     return exp
 
